@@ -11,7 +11,13 @@ Families (tag prefix "resp"):
             with plans that handle, ignore or do not wait at all;
   * reject  a suspension request refused by the state machine while a command is in flight (regression of C13-b);
   * calls   several calls on one engine (plan ids 0, 1, 2), also after an aborted / failed call;
-  * real    real bluesky plans (count, trigger_and_read) through the real preprocessors - run for the oracles only.
+  * real    real bluesky plans (count, trigger_and_read) through the real preprocessors - run for the oracles only;
+  * wrap    (oracle only, run by harness/drivers/engine_driver_resp.py) the plan sits under REAL preprocessors
+            (stub_wrapper / msg_mutator deleting messages, identity msg_mutator / plan_mutator, baseline_wrapper,
+            finalize_wrapper, SupplementalData as engine preprocessor): every yield of the plan itself must receive the
+            engine's response to its message, None for a deleted message;
+  * crr     (oracle only) RunEngine(call_returns_result=True): plans returning values - normally, after catching a
+            device fault, under plan_mutator-based preprocessors - plan_result / run_start_uids / exit_status.
 """
 from harness.drivers.engine_cases import m, seq, base, count_msgs, DEVS, BUNDLE
 
@@ -160,4 +166,69 @@ def gen(rng, tier):
                             tag="resp real %s suspend@%d" % (name, at)))
             out.append(base(spec, no_model=True, faults=[[1, "trigger", 0, "EDev"]], inject=[{"at": at, "req": "abort"}],
                             tag="resp real %s fault+abort@%d" % (name, at)))
+    out += wrapped_cases(tier)
+    return out
+
+
+def p_inner(ret=7):
+    """responses are distinctive and the deleted messages come right after a non-None response"""
+    return seq(m("read", 1), m("open_run"), m("null"), m("set", 1, [1], {"group": "g"}), m("null"), m("wait", None, [], {"group": "g"}),
+               m("close_run"), m("stage", 0), m("read", 2), m("unstage", 0), m("null"), ["ret", ret])
+
+
+def p_value(kind):
+    run = [m("open_run"), m("checkpoint"), *BUNDLE, m("close_run")]
+    if kind == "plain":
+        return seq(*run, ["ret", 11])
+    if kind == "caught":            # the last step fails inside the device; the plan catches it and returns at once
+        return seq(*run, ["tryexc", seq(m("set", 1, [1], {"group": None}), ["ret", 12]), ["ret", 13]])
+    if kind == "caught-then-yield":
+        return seq(*run, ["tryexc", seq(m("set", 1, [1], {"group": None}), ["ret", 12]), seq(m("null"), ["ret", 14])])
+    if kind == "norun":
+        return seq(m("null"), ["ret", 15])
+    raise ValueError(kind)
+
+
+def wrapped_cases(tier):
+    out = []
+    thorough = tier == "thorough"
+
+    def add(plan, tag, **kw):
+        out.append(base(plan, resp_driver=True, no_model=True, tag="resp " + tag, **kw))
+    # ---- wrap: deleting / transparent preprocessors between the engine and the plan
+    wraps = [("stub", [["stub"]]), ("del-null", [["delete", ["null"]]]), ("del-run", [["delete", ["open_run", "close_run"]]]),
+             ("del-all", [["delete", ["null", "open_run", "close_run", "stage", "unstage"]]]),
+             ("msg-id", [["msg_identity"]]), ("plan-id", [["plan_identity"]]), ("stub+plan-id", [["stub"], ["plan_identity"]]),
+             ("del+finalize", [["delete", ["null"]], ["finalize"]])]
+    plan = p_inner()
+    n = count_msgs(plan) + 3
+    for name, w in wraps:
+        add(plan, "wrap %s plain" % name, wrap=w)
+        for at in range(2, n + 1, 2 if thorough else 4):
+            add(plan, "wrap %s pause@%d" % (name, at), wrap=w, inject=[{"at": at, "req": "pause"}], script=["resume"])
+            add(plan, "wrap %s suspend@%d" % (name, at), wrap=w, inject=[{"at": at, "req": "suspend"}, {"at": at + 3, "req": "release", "sid": 0}])
+        add(plan, "wrap %s fault" % name, wrap=w, faults=[[1, "set", 0, "EDev"]])
+    # a real run around a stub: baseline wrapper and SupplementalData need an open run
+    inrun = seq(m("open_run"), m("checkpoint"), m("read", 1), m("null"), *BUNDLE, m("null"), m("close_run"), ["ret", 3])
+    for name, kw in (("baseline", {"wrap": [["delete", ["null"]], ["baseline", [2]]]}),
+                     ("supplemental", {"wrap": [["delete", ["null"]]], "preproc": [["supplemental", [2]]]})):
+        add(inrun, "wrap %s plain" % name, **kw)
+        for at in (3, 6, 9):
+            add(inrun, "wrap %s pause@%d" % (name, at), inject=[{"at": at, "req": "pause"}], script=["resume"], **kw)
+    # ---- crr: the value RE(...) returns when configured to return results
+    envs = [("bare", {}), ("msg-id", {"wrap": [["msg_identity"]]}), ("plan-id", {"wrap": [["plan_identity"]]}),
+            ("finalize", {"wrap": [["finalize"]]}), ("pre-plan-id", {"preproc": [["plan_identity"]]}),
+            ("pre-msg-id", {"preproc": [["msg_identity"]]}), ("supplemental", {"preproc": [["supplemental", [2]]]}),
+            ("baseline", {"wrap": [["baseline", [2]]]})]
+    for kind in ("plain", "caught", "caught-then-yield", "norun"):
+        for name, kw in envs:
+            if kind == "norun" and name in ("supplemental", "baseline"):
+                pass
+            faults = [[1, "set", 0, "EDev"]] if kind.startswith("caught") else []
+            add(p_value(kind), "crr %s %s" % (kind, name), crr=True, faults=faults, **kw)
+            if kind == "plain":
+                add(p_value(kind), "crr %s %s pause" % (kind, name), crr=True, inject=[{"at": 4, "req": "pause"}], script=["resume"], **kw)
+                add(p_value(kind), "crr %s %s abort" % (kind, name), crr=True, inject=[{"at": 4, "req": "abort"}], **kw)
+    add(None, "crr calls", crr=True, calls=[p_value("plain"), p_value("caught"), p_value("norun")], faults=[[1, "set", 0, "EDev"]])
+    del out[-1]["plan"]
     return out
